@@ -316,7 +316,7 @@ QueryWhy(v, stack, loaded, ev) ==
 \* instances that own their storage (built, or loaded by full deserialization)
 MemSizeWhy(v, stack, loaded, ev) ==
     IF ev.out # "ret" THEN "outcome"
-    ELSE IF loaded \in {"eps", "mmap"} THEN "ok"
+    ELSE IF loaded \in {"eps", "eps8", "mmap"} THEN "ok"
     ELSE IF MemSizeOK(stack, v.len, ev.res, ev.inner) THEN "ok" ELSE "mem_size"
 
 \* reload (C15): serialize, load back by `mode`, continue on the loaded copy.
@@ -325,7 +325,7 @@ MemSizeWhy(v, stack, loaded, ev) ==
 ReloadApplicable(loaded) == loaded \in {"own", "full"}
 ReloadWhy(loaded, ev) ==
     IF ~ReloadApplicable(loaded) THEN (IF ev.out = "na" THEN "ok" ELSE "outcome-na")
-    ELSE IF ev.out = "ret" /\ ev.mode \in {"full", "eps", "mmap"} THEN "ok" ELSE "outcome"
+    ELSE IF ev.out = "ret" /\ ev.mode \in {"full", "eps", "eps8", "mmap"} THEN "ok" ELSE "outcome"
 
 \* build: constructors must return for every well-formed stack over every vector
 BuildWhy(ev) ==
